@@ -12,6 +12,11 @@ def main():
     chk.assume('norms via sqrt modelled as algebraic unknowns (s >= 0, s*s = x)', 'exact real arithmetic: recurrence residual == true residual is an exact identity for these methods; rounding drift is outside',
                'convergence to the reference solution / rates are outside (only finite-step identities are decided)')
     e2prop.run_e2(chk, e2prop.e2_harness_path('c07_e2.cpp'), 'c07_e2', timeout=60 if quick else 300, harness_args=['--bounds', lvl], max_group=1)
+    # further solver families with the same obligations
+    chk.bounds.append('E2 further solver families: FGMRES(2), GMRES(2), BiCGStab(2) (3x3), IDR(2), RGCR, PMR, PSD, PCGNR on symbolic 2x2 (thorough 3x3) systems, iteration limit 1 (thorough 1..2), modes apply / correct / apply twice; every solve is first probed for reads of uninitialised work vectors')
+    chk.functions += ['Solver::FGMRES / GMRES / BiCGStabL / IDRS / RGCR / PMR / PSD / PCGNR ::{apply,correct,_apply_intern}']
+    chk.assume('restarted methods (GMRES, FGMRES) do not interrupt the last inner iteration of a cycle: their iteration count may exceed the limit by one (not claimed as a violation); PipePCG / GroppPCG / RBiCGStab need Global::Vector asynchronous dot products and are outside')
+    e2prop.run_e2(chk, e2prop.e2_harness_path('c07b_e2.cpp'), 'c07b_e2', timeout=60 if quick else 300, harness_args=['--bounds', lvl], max_group=1)
     return chk.finish(
         explanation='Partial (stated): (A) the real IterativeSolver stopping logic is executed on symbolic tolerances and defect sequences; for each scenario z3 decides that the returned status implies its documented predicate (success => converged predicate, max_iter => limit reached and not converged, stagnated => the last min_stag_iter steps stagnated, ...). (B) the real Krylov/Richardson solver objects run on symbolic small systems; z3 decides that the reported final defect equals the true residual norm of the returned vector, the rhs is untouched, apply() ignores and correct() honours the start vector, and repeated solves on one object coincide.',
         rule=e2prop.E2_RULE, trusted=e2prop.E2_TRUSTED)
